@@ -185,7 +185,10 @@ def _feed(data):
             replies.append(d[1][0].seqno)
         else:
             replies.append("undecodable-reply:" + repr(d)[:80])
-    return ch.payloads, replies, bytes(ch.buffer), raised, ch
+    # the decode_payload seam: if the buffer was consumed without the wrapper ever being called, the
+    # code no longer goes through it (inlined) and the payloads are simply not observable here
+    payloads = None if (not ch.payloads and bytes(ch.buffer) != bytes(data)) else ch.payloads
+    return payloads, replies, bytes(ch.buffer), raised, ch
 
 
 def _pipe_messages():
@@ -257,8 +260,8 @@ def oracle(case):
         want_payloads = [m["payload"] for m in msgs]
         want_replies = [m["seqno"] for m in msgs if m["mt"].startswith(b"sync")]
         cls = "empty-payload" if any(not m["payload"] for m in msgs) else "payload"
-        if raised or payloads != want_payloads or left != tail:
-            out.append((f"datastream:stream:{cls}", repr({"raised": raised, "n": len(payloads), "left": len(left)}),
+        if raised or (payloads is not None and payloads != want_payloads) or left != tail:
+            out.append((f"datastream:stream:{cls}", repr({"raised": raised, "n": None if payloads is None else len(payloads), "left": len(left)}),
                         repr({"raised": None, "n": len(want_payloads), "left": len(tail)}),
                         "handle_received did not take exactly the encoded messages from the buffer (in order, tail left)"))
         elif replies != want_replies:
@@ -348,8 +351,14 @@ def run(ctx, only=None):
 
     def show_recv(stream):
         payloads, replies, left, raised, _ch = _feed(stream)
-        return " ".join([("raise:" + raised) if raised else "ok", _hex(left), ",".join(_hex(p) for p in payloads) or "none",
-                         ",".join(str(r) for r in replies) or "none"])
+        shown = "unobserved" if payloads is None else (",".join(_hex(p) for p in payloads) or "none")
+        return " ".join([("raise:" + raised) if raised else "ok", _hex(left), shown, ",".join(str(r) for r in replies) or "none"])
+
+    def same_recv(impl, model):
+        i, m = impl.split(" "), model.split(" ")
+        if len(i) == 4 and len(m) == 4 and i[2] == "unobserved":
+            m[2] = "unobserved"
+        return i == m
 
     for c, enc, stream in plan:
         kind = c["kind"]
@@ -373,7 +382,7 @@ def run(ctx, only=None):
         elif kind == "stream":
             m = next(answers)
             impl = show_recv(stream)
-            if impl != m:
+            if not same_recv(impl, m):
                 ctx.disagree(c, impl[:300], m[:300], where="datastream handle_received")
             ctx.validated()
             ctx.note("datastream:stream-msgs:%d" % len(c["msgs"]))
@@ -383,7 +392,7 @@ def run(ctx, only=None):
             if impl != m_dec:
                 ctx.disagree(c, impl[:300], m_dec[:300], where="datastream decode_message (malformed)")
             impl = show_recv(stream)
-            if impl != m_recv:
+            if not same_recv(impl, m_recv):
                 ctx.disagree(c, impl[:300], m_recv[:300], where="datastream handle_received (malformed)")
             ctx.validated(2)
         nontrivial = (kind in ("reply", "bad", "pipe", "protobufs") or (kind == "msg" and (not c["m"]["payload"] or c["rest"]))
